@@ -91,9 +91,10 @@ Definition obj_of (nchunks : nat) (e : N * spec) : obj :=
   let '(chunks, d) :=
     match s_fault s with
     | KNone | KNoDir => (good, DecOk (Some (s_mode s)))
-    | KMissing | KHead => ([], DecErr)
-    | KMid => (firstn (Nat.div2 nchunks) good, DecErr)
-    | KTail => (good, DecErr)
+    | KMissing => ([], DecAbsent)
+    | KHead => ([], DecCorrupt)
+    | KMid => (firstn (Nat.div2 nchunks) good, DecCorrupt)
+    | KTail => (good, DecCorrupt)
     end in
   mkObj (s_path s) [i] chunks d (s_optional s)
     (match s_fault s, s_old s with
@@ -255,6 +256,8 @@ Fixpoint reconstruct (specs : list spec) (evs : list event) : list obj :=
   | [] => []
   | s :: rest =>
       let flt := match s_fault s, s_old s with KNoDir, _ => FCreate | _, OldDir => FPersist | _, _ => FNone end in
+      (* whether a failing member is absent from the entry or stored and unreadable is the case's knowledge *)
+      let bad := match s_fault s with KMissing => DecAbsent | _ => DecCorrupt end in
       match evs with
       | ECreate t :: r =>
           let sfx := skipn (length tmp_prefix) (snd t) in
@@ -267,11 +270,11 @@ Fixpoint reconstruct (specs : list spec) (evs : list event) : list obj :=
           | EUnlink _ :: r2 =>
               match flt with
               | FPersist => mkObj (s_path s) sfx chunks (DecOk (Some (s_mode s))) (s_optional s) flt :: reconstruct rest r2
-              | _ => mkObj (s_path s) sfx chunks DecErr (s_optional s) flt :: reconstruct rest r2
+              | _ => mkObj (s_path s) sfx chunks bad (s_optional s) flt :: reconstruct rest r2
               end
-          | _ => [mkObj (s_path s) sfx chunks DecErr (s_optional s) flt]
+          | _ => [mkObj (s_path s) sfx chunks bad (s_optional s) flt]
           end
-      | _ => [mkObj (s_path s) [] [] DecErr (s_optional s) FCreate]
+      | _ => [mkObj (s_path s) [] [] bad (s_optional s) FCreate]
       end
   end.
 
@@ -308,7 +311,7 @@ Definition run_accept (x : sx) : sx :=
       let sizes_ok :=
         forallb (fun e => match o_dec (snd e) with
                           | DecOk _ => N.of_nat (length (o_new (snd e))) =? s_size (fst e)
-                          | DecErr => true
+                          | _ => true
                           end) (combine specs objs) in
       SL [ sym "accept";
            sbool (events_eqb (trace (prog objs) (f0, init_local)) evs);
